@@ -161,7 +161,10 @@ RMax(p, q) == IF RLe(p, q) THEN q ELSE p
 ScaleOf(c) == IF c.op \in {"Add", "Sub"}
               THEN Only({ RMax(RAbs(m.v1), RAbs(m.v2)) : m \in {Match(pool[c.i], pool[c.j])} })
               ELSE Zero
-EmitRec == PrintT(<<"TR", ToJson([init |-> seeds, sc |-> ScaleOf(LastStep.c),
+\* a < b between physically equal amounts (a tie): decided by float rounding unless both sides are the same object
+TieOf(c) == c.op = "Lt" /\ LastStep.ok /\ IsSimple(pool[c.i].q) /\ IsSimple(pool[c.j].q)
+            /\ RCmp(pool[c.i].v, ConvertU(pool[c.j].q[1].u, pool[c.i].q[1].u, pool[c.j].v)) \in {0, 2}
+EmitRec == PrintT(<<"TR", ToJson([init |-> seeds, sc |-> ScaleOf(LastStep.c), tie |-> TieOf(LastStep.c),
                                  h |-> [k \in 1..Len(hist') |-> hist'[k].c],
                                  ok |-> LastStep.ok, exc |-> LastStep.exc, res |-> Descr(LastStep.val)])>>)
 Emit == CASE EmitMode = "all"    -> EmitRec
